@@ -35,7 +35,7 @@ with open('/verif/seeded/README.md', 'w') as f:
         f.write('| ' + ' | '.join(r) + ' |\n')
     n = len(rows); c = sum(1 for r in rows if 'not caught' not in r[5])
     f.write(f'\n{c} of {n} stored property-breaking changes are caught by the quick check of the property they were written '
-            'against (ids: plain = round 1, R2- = round 2, R3- = the "interaction" round, R4- = the "mixed simulators, several entities, long runs" round, R5- = the "unusual but legal use" round of the third session).\n')
+            'against (ids: plain = round 1, R2- = round 2, R3- = the "interaction" round, R4- = the "mixed simulators, several entities, long runs" round, R5- = the "unusual but legal use" round and R6- = the short last round of the third session).\n')
     f.write('\n## Behaviour-preserving changes (must NOT be reported)\n\nRefactorings, renames of private names, equivalent '
             'micro-optimisations and reworded messages written by sub-agents; all 18 quick checks are run against each.\n\n'
             '| id | file(s) | change | suite | result |\n|---|---|---|---|---|\n')
